@@ -1,3 +1,559 @@
 import CircuitModel.MergeLang
 namespace CM.Merge
+
+/-! ## map union -/
+
+theorem mapHas_append (a b : List (Nat × Nat)) (k : Nat) : mapHas (a ++ b) k = (mapHas a k || mapHas b k) := by
+  simp [mapHas]
+
+theorem mapUnionLeft_nil (r : List (Nat × Nat)) : mapUnionLeft r [] = r := rfl
+
+theorem mapUnionLeft_cons (r o : List (Nat × Nat)) (k v : Nat) :
+    mapUnionLeft r ((k, v) :: o) = mapUnionLeft (if mapHas r k then r else r ++ [(k, v)]) o := by
+  simp [mapUnionLeft, List.foldl_cons]
+
+theorem mapHas_mono (o : List (Nat × Nat)) : ∀ (r : List (Nat × Nat)) (k : Nat), mapHas r k = true →
+    mapHas (mapUnionLeft r o) k = true := by
+  induction o with
+  | nil => intro r k h; simpa [mapUnionLeft_nil] using h
+  | cons p o ih =>
+    intro r k h
+    obtain ⟨k', v'⟩ := p
+    rw [mapUnionLeft_cons]
+    apply ih
+    split
+    · exact h
+    · simp [mapHas_append, h]
+
+theorem mapUnionLeft_filter_of_has (o : List (Nat × Nat)) : ∀ (r : List (Nat × Nat)) (k : Nat), mapHas r k = true →
+    (mapUnionLeft r o).filter (·.1 == k) = r.filter (·.1 == k) := by
+  induction o with
+  | nil => intro r k _; rfl
+  | cons p o ih =>
+    intro r k h
+    obtain ⟨k', v'⟩ := p
+    rw [mapUnionLeft_cons]
+    by_cases hk' : mapHas r k' = true
+    · simp only [hk', if_true]; exact ih r k h
+    · simp only [hk', if_false, Bool.false_eq_true]
+      have hne : k' ≠ k := by intro e; subst e; exact hk' h
+      rw [ih _ k (by simp [mapHas_append, h])]
+      simp [List.filter_append, hne]
+
+theorem mapUnionLeft_has_of_mem (o : List (Nat × Nat)) : ∀ (r : List (Nat × Nat)) (k v : Nat), (k, v) ∈ o →
+    mapHas (mapUnionLeft r o) k = true := by
+  induction o with
+  | nil => intro r k v h; cases h
+  | cons p o ih =>
+    intro r k v h
+    obtain ⟨k', v'⟩ := p
+    rw [mapUnionLeft_cons]
+    rcases List.mem_cons.1 h with h | h
+    · cases h
+      apply mapHas_mono
+      split
+      · assumption
+      · simp [mapHas]
+    · exact ih _ k v h
+
+/-! ## layered folds -/
+
+theorem foldl_first_set (layers : List Nat) : ∀ acc : Nat,
+    layers.foldl (fun acc l => if acc = 0 then l else acc) acc
+      = if acc = 0 then (layers.find? (· ≠ 0)).getD 0 else acc := by
+  induction layers with
+  | nil => intro acc; by_cases h : acc = 0 <;> simp [h]
+  | cons l ls ih =>
+    intro acc
+    rw [List.foldl_cons, ih]
+    by_cases h : acc = 0
+    · by_cases hl : l = 0 <;> simp [h, hl]
+    · simp [h]
+
+theorem foldl_or (layers : List Bool) : ∀ acc : Bool,
+    layers.foldl (fun acc l => acc || l) acc = (acc || layers.any id) := by
+  induction layers with
+  | nil => intro acc; simp
+  | cons l ls ih => intro acc; rw [List.foldl_cons, ih]; simp [Bool.or_assoc]
+
+theorem foldl_append (layers : List (List Nat)) : ∀ acc : List Nat,
+    layers.foldl (fun acc l => acc ++ l) acc = acc ++ layers.flatten := by
+  induction layers with
+  | nil => intro acc; simp
+  | cons l ls ih => intro acc; rw [List.foldl_cons, ih]; simp [List.append_assoc]
+
+/-! ## association lists -/
+
+theorem lookup_cons (n : String) (y : Val) (fs : List (String × Val)) (f : String) :
+    lookup ((n, y) :: fs) f = if n = f then some y else lookup fs f := by
+  unfold lookup
+  by_cases h : n = f <;> simp [h]
+
+theorem lookup_eq_of_mem : ∀ (fs : List (String × Val)), (fs.map (·.1)).Nodup → ∀ (f : String) (x : Val),
+    (f, x) ∈ fs → lookup fs f = some x := by
+  intro fs
+  induction fs with
+  | nil => intro _ f x h; cases h
+  | cons p fs ih =>
+    intro hnd f x h
+    obtain ⟨n, y⟩ := p
+    rw [List.map_cons, List.nodup_cons] at hnd
+    rw [lookup_cons]
+    rcases List.mem_cons.1 h with h | h
+    · cases h; simp
+    · have hne : n ≠ f := by
+        intro e; subst e
+        exact hnd.1 (List.mem_map.2 ⟨(n, x), h, rfl⟩)
+      simp only [hne, if_false]
+      exact ih hnd.2 f x h
+
+theorem mem_unique (fs : List (String × Val)) (hnd : (fs.map (·.1)).Nodup) (f : String) (x x' : Val)
+    (h : (f, x) ∈ fs) (h' : (f, x') ∈ fs) : x = x' := by
+  have a := lookup_eq_of_mem fs hnd f x h
+  have b := lookup_eq_of_mem fs hnd f x' h'
+  rw [a] at b
+  exact Option.some.inj b
+
+theorem exists_of_mem_names (fs : List (String × Val)) (f : String) (h : f ∈ fs.map (·.1)) : ∃ x, (f, x) ∈ fs := by
+  obtain ⟨⟨n, x⟩, hp, rfl⟩ := List.mem_map.1 h
+  exact ⟨x, hp⟩
+
+/-- on distinct names, an update rewrites exactly the named entry -/
+theorem update_eq_map (fs : List (String × Val)) (hnd : (fs.map (·.1)).Nodup) (f : String) (x v : Val)
+    (h : (f, x) ∈ fs) (g : String × Val → String × Val) (hg : g (f, x) = (f, v)) :
+    update fs f v = fs.map (fun p => if p.1 = f then g p else p) := by
+  unfold update
+  apply List.map_congr_left
+  intro p hp
+  obtain ⟨n, z⟩ := p
+  by_cases e : n = f
+  · subst e
+    have := mem_unique fs hnd n z x hp h
+    subst this
+    simp [hg]
+  · simp [e]
+
+theorem update_same (fs : List (String × Val)) (hnd : (fs.map (·.1)).Nodup) (f : String) (x : Val)
+    (h : (f, x) ∈ fs) : update fs f x = fs := by
+  rw [update_eq_map fs hnd f x x h id rfl]
+  simp
+
+/-! ## evaluation, one statement at a time -/
+
+/-- the effect of one statement (the `r'` of `evalStmts`) -/
+def step (types : List TypeDef) (fuel : Nat) (tbl : List Field) (st : Stmt) (r o : List (String × Val)) :
+    List (String × Val) :=
+  match st with
+  | .fillIfZero f =>
+    (match lookup r f, lookup o f with
+     | some (.scalar a), some (.scalar b) => if a = 0 then update r f (.scalar b) else r
+     | _, _ => r)
+  | .orBool f =>
+    (match lookup r f, lookup o f with
+     | some (.bool a), some (.bool b) => if !a then update r f (.bool b) else r
+     | _, _ => r)
+  | .appendList f =>
+    (match lookup r f, lookup o f with
+     | some (.list a), some (.list b) => update r f (.list (a ++ b))
+     | _, _ => r)
+  | .unionMapLeft f =>
+    (match lookup r f, lookup o f with
+     | some (.map a), some (.map b) => update r f (.map (mapUnionLeft a b))
+     | _, _ => r)
+  | .nested f =>
+    (match fuel, lookup r f, lookup o f, ((tbl.find? (·.name == f)).map (·.kind) : Option FKind) with
+     | fuel' + 1, some (.struct a), some (.struct b), some (FKind.nested ty) =>
+       (match typeOf types ty with
+        | some td => update r f (.struct (evalStmts types fuel' td.fields td.prog a b))
+        | none => r)
+     | _, _, _, _ => r)
+  | .opaque _ => r
+
+theorem evalStmts_nil (types : List TypeDef) (fuel : Nat) (tbl : List Field) (r o : List (String × Val)) :
+    evalStmts types fuel tbl [] r o = r := by
+  rw [evalStmts]
+
+theorem evalStmts_cons (types : List TypeDef) (fuel : Nat) (tbl : List Field) (st : Stmt) (rest : List Stmt)
+    (r o : List (String × Val)) :
+    evalStmts types fuel tbl (st :: rest) r o = evalStmts types fuel tbl rest (step types fuel tbl st r o) o := by
+  rw [evalStmts.eq_def]
+  rfl
+
+
+/-- the specification for one entry of the receiver -/
+def fieldSpec (types : List TypeDef) (fuel : Nat) (tbl : List Field) (o : List (String × Val)) (p : String × Val) :
+    String × Val :=
+  match ((tbl.find? (·.name == p.1)).map (·.kind) : Option FKind), lookup o p.1 with
+  | some k, some y => (p.1, fillGap types fuel k p.2 y)
+  | _, _ => p
+
+theorem specStruct_eq (types : List TypeDef) (fuel : Nat) (tbl : List Field) (r o : List (String × Val)) :
+    specStruct types fuel tbl r o = r.map (fieldSpec types fuel tbl o) := by
+  unfold specStruct
+  apply List.map_congr_left
+  intro p _
+  obtain ⟨n, x⟩ := p
+  rfl
+
+theorem fieldSpec_fst (types : List TypeDef) (fuel : Nat) (tbl : List Field) (o : List (String × Val)) (p : String × Val) :
+    (fieldSpec types fuel tbl o p).1 = p.1 := by
+  unfold fieldSpec
+  split <;> rfl
+
+theorem fieldSpec_of (types : List TypeDef) (fuel : Nat) (tbl : List Field) (o : List (String × Val)) (f : String)
+    (x y : Val) (fld : Field) (hfld : tbl.find? (·.name == f) = some fld) (hy : lookup o f = some y) :
+    fieldSpec types fuel tbl o (f, x) = (f, fillGap types fuel fld.kind x y) := by
+  simp [fieldSpec, hfld, hy]
+
+theorem conforms_iff (types : List TypeDef) (fuel : Nat) (tbl : List Field) (fs : List (String × Val)) :
+    conforms types fuel tbl fs = true ↔
+      fs.map (·.1) = tbl.map (·.name) ∧
+      ∀ n x, (n, x) ∈ fs → ∃ fld, tbl.find? (·.name == n) = some fld ∧ conformsVal types fuel fld.kind x = true := by
+  unfold conforms
+  simp only [Bool.and_eq_true, beq_iff_eq, List.all_eq_true]
+  constructor
+  · rintro ⟨h1, h2⟩
+    refine ⟨h1, ?_⟩
+    intro n x hm
+    have := h2 (n, x) hm
+    simp only at this
+    split at this
+    · exact ⟨_, ‹_›, this⟩
+    · cases this
+  · rintro ⟨h1, h2⟩
+    refine ⟨h1, ?_⟩
+    rintro ⟨n, x⟩ hm
+    obtain ⟨fld, hf, hc⟩ := h2 n x hm
+    simp only [hf, hc]
+
+theorem conformsVal_nested_succ (types : List TypeDef) (fuel : Nat) (ty : String) (x : Val)
+    (h : conformsVal types (fuel + 1) (.nested ty) x = true) :
+    ∃ a td, x = .struct a ∧ typeOf types ty = some td ∧ conforms types fuel td.fields a = true := by
+  cases x with
+  | struct a =>
+    simp only [conformsVal] at h
+    split at h
+    · rename_i td htd
+      exact ⟨a, td, rfl, htd, h⟩
+    · cases h
+  | _ => simp [conformsVal] at h
+
+theorem conformsVal_nested_zero (types : List TypeDef) (ty : String) (x : Val)
+    (h : conformsVal types 0 (.nested ty) x = true) : ∃ a, x = .struct a := by
+  cases x with
+  | struct a => exact ⟨a, rfl⟩
+  | _ => simp [conformsVal] at h
+
+theorem conformsVal_scalar (types : List TypeDef) (fuel : Nat) (x : Val)
+    (h : conformsVal types fuel .scalar x = true) : ∃ a, x = .scalar a := by
+  cases x with
+  | scalar a => exact ⟨a, rfl⟩
+  | _ => simp [conformsVal] at h
+theorem conformsVal_bool (types : List TypeDef) (fuel : Nat) (x : Val)
+    (h : conformsVal types fuel .bool x = true) : ∃ a, x = .bool a := by
+  cases x with
+  | bool a => exact ⟨a, rfl⟩
+  | _ => simp [conformsVal] at h
+theorem conformsVal_list (types : List TypeDef) (fuel : Nat) (x : Val)
+    (h : conformsVal types fuel .list x = true) : ∃ a, x = .list a := by
+  cases x with
+  | list a => exact ⟨a, rfl⟩
+  | _ => simp [conformsVal] at h
+theorem conformsVal_map (types : List TypeDef) (fuel : Nat) (x : Val)
+    (h : conformsVal types fuel .map x = true) : ∃ a, x = .map a := by
+  cases x with
+  | map a => exact ⟨a, rfl⟩
+  | _ => simp [conformsVal] at h
+
+
+theorem step_eq (types : List TypeDef) (fuel : Nat) (tbl : List Field) (o : List (String × Val))
+    (IH : ∀ fuel', fuel = fuel' + 1 → ∀ td, td ∈ types → ∀ a b, conforms types fuel' td.fields a = true →
+      conforms types fuel' td.fields b = true →
+      evalStmts types fuel' td.fields td.prog a b = specStruct types fuel' td.fields a b)
+    (st : Stmt) (f : String) (ok : FKind → Bool) (hst : st.target = some (f, ok))
+    (fld : Field) (hfld : tbl.find? (·.name == f) = some fld) (hok : ok fld.kind = true)
+    (x y : Val) (hx : conformsVal types fuel fld.kind x = true) (hy : conformsVal types fuel fld.kind y = true)
+    (hoy : lookup o f = some y)
+    (r : List (String × Val)) (hnd : (r.map (·.1)).Nodup) (hmem : (f, x) ∈ r) :
+    step types fuel tbl st r o = r.map (fun p => if p.1 = f then fieldSpec types fuel tbl o p else p) := by
+  have hl := lookup_eq_of_mem r hnd f x hmem
+  have hg := fieldSpec_of types fuel tbl o f x y fld hfld hoy
+  have fin_upd : ∀ v, fillGap types fuel fld.kind x y = v →
+      update r f v = r.map (fun p => if p.1 = f then fieldSpec types fuel tbl o p else p) := by
+    intro v hv
+    exact update_eq_map r hnd f x v hmem _ (by rw [hg, hv])
+  have fin_same : fillGap types fuel fld.kind x y = x →
+      r = r.map (fun p => if p.1 = f then fieldSpec types fuel tbl o p else p) := by
+    intro hv
+    rw [← fin_upd x hv, update_same r hnd f x hmem]
+  cases st with
+  | fillIfZero f' =>
+    simp only [Stmt.target, Option.some.injEq, Prod.mk.injEq] at hst
+    obtain ⟨rfl, rfl⟩ := hst
+    have hk : fld.kind = .scalar := by simpa using hok
+    rw [hk] at hx hy fin_upd fin_same
+    obtain ⟨a, rfl⟩ := conformsVal_scalar _ _ _ hx
+    obtain ⟨b, rfl⟩ := conformsVal_scalar _ _ _ hy
+    simp only [step, hl, hoy]
+    by_cases ha : a = 0
+    · simp only [ha, if_true]
+      exact fin_upd _ (by simp [fillGap, ha])
+    · simp only [ha, if_false]
+      exact fin_same (by simp [fillGap, ha])
+  | orBool f' =>
+    simp only [Stmt.target, Option.some.injEq, Prod.mk.injEq] at hst
+    obtain ⟨rfl, rfl⟩ := hst
+    have hk : fld.kind = .bool := by simpa using hok
+    rw [hk] at hx hy fin_upd fin_same
+    obtain ⟨a, rfl⟩ := conformsVal_bool _ _ _ hx
+    obtain ⟨b, rfl⟩ := conformsVal_bool _ _ _ hy
+    simp only [step, hl, hoy]
+    cases a
+    · simp only [Bool.not_false, if_true]
+      exact fin_upd _ (by simp [fillGap])
+    · simp only [Bool.not_true, Bool.false_eq_true, if_false]
+      exact fin_same (by simp [fillGap])
+  | appendList f' =>
+    simp only [Stmt.target, Option.some.injEq, Prod.mk.injEq] at hst
+    obtain ⟨rfl, rfl⟩ := hst
+    have hk : fld.kind = .list := by simpa using hok
+    rw [hk] at hx hy fin_upd fin_same
+    obtain ⟨a, rfl⟩ := conformsVal_list _ _ _ hx
+    obtain ⟨b, rfl⟩ := conformsVal_list _ _ _ hy
+    simp only [step, hl, hoy]
+    exact fin_upd _ (by simp [fillGap])
+  | unionMapLeft f' =>
+    simp only [Stmt.target, Option.some.injEq, Prod.mk.injEq] at hst
+    obtain ⟨rfl, rfl⟩ := hst
+    have hk : fld.kind = .map := by simpa using hok
+    rw [hk] at hx hy fin_upd fin_same
+    obtain ⟨a, rfl⟩ := conformsVal_map _ _ _ hx
+    obtain ⟨b, rfl⟩ := conformsVal_map _ _ _ hy
+    simp only [step, hl, hoy]
+    exact fin_upd _ (by simp [fillGap])
+  | nested f' =>
+    simp only [Stmt.target, Option.some.injEq, Prod.mk.injEq] at hst
+    obtain ⟨rfl, rfl⟩ := hst
+    obtain ⟨ty, hk⟩ : ∃ ty, fld.kind = .nested ty := by
+      cases hkk : fld.kind with
+      | nested ty => exact ⟨ty, rfl⟩
+      | _ => rw [hkk] at hok; simp at hok
+    rw [hk] at hx hy fin_upd fin_same
+    cases fuel with
+    | zero =>
+      obtain ⟨a, rfl⟩ := conformsVal_nested_zero _ _ _ hx
+      obtain ⟨b, rfl⟩ := conformsVal_nested_zero _ _ _ hy
+      simp only [step]
+      exact fin_same (by simp [fillGap])
+    | succ fuel' =>
+      obtain ⟨a, td, rfl, htd, hca⟩ := conformsVal_nested_succ _ _ _ _ hx
+      obtain ⟨b, td', rfl, htd', hcb⟩ := conformsVal_nested_succ _ _ _ _ hy
+      rw [htd] at htd'
+      cases htd'
+      have hmemtd : td ∈ types := List.mem_of_find?_eq_some htd
+      simp only [step, hl, hoy, hfld, hk, Option.map_some, htd]
+      rw [IH fuel' rfl td hmemtd a b hca hcb]
+      exact fin_upd _ (by simp only [fillGap, htd, specStruct])
+  | «opaque» d => simp [Stmt.target] at hst
+
+
+/-! ## the statement loop -/
+
+def Stmt.tname : Stmt → Option String
+  | .fillIfZero f => some f
+  | .orBool f => some f
+  | .appendList f => some f
+  | .unionMapLeft f => some f
+  | .nested f => some f
+  | .opaque _ => none
+
+def tnames (prog : List Stmt) : List String := prog.filterMap Stmt.tname
+
+theorem target_tname (st : Stmt) (f : String) (ok : FKind → Bool) (h : st.target = some (f, ok)) : st.tname = some f := by
+  cases st <;> simp_all [Stmt.target, Stmt.tname]
+
+theorem loop_eq (types : List TypeDef) (fuel : Nat) (tbl : List Field) (o : List (String × Val))
+    (g : String × Val → String × Val) (hg : ∀ p, (g p).1 = p.1) (prog : List Stmt) :
+    ∀ r : List (String × Val), (r.map (·.1)).Nodup → (tnames prog).Nodup →
+      (∀ st ∈ prog, ∃ f x, st.tname = some f ∧ (f, x) ∈ r ∧
+        ∀ r' : List (String × Val), (r'.map (·.1)).Nodup → (f, x) ∈ r' →
+          step types fuel tbl st r' o = r'.map (fun p => if p.1 = f then g p else p)) →
+      evalStmts types fuel tbl prog r o = r.map (fun p => if p.1 ∈ tnames prog then g p else p) := by
+  induction prog with
+  | nil =>
+    intro r _ _ _
+    simp [evalStmts_nil, tnames]
+  | cons st rest ih =>
+    intro r hnd htn hst
+    obtain ⟨f, x, hf, hmem, hstep⟩ := hst st (List.mem_cons_self ..)
+    have htn' : tnames (st :: rest) = f :: tnames rest := by simp [tnames, hf]
+    rw [htn', List.nodup_cons] at htn
+    rw [evalStmts_cons, hstep r hnd hmem, htn']
+    have hnames : (r.map (fun p => if p.1 = f then g p else p)).map (·.1) = r.map (·.1) := by
+      rw [List.map_map]
+      apply List.map_congr_left
+      intro p _
+      simp only [Function.comp]
+      split
+      · exact hg p
+      · rfl
+    rw [ih _ (by rw [hnames]; exact hnd) htn.2, List.map_map]
+    · apply List.map_congr_left
+      intro p _
+      simp only [Function.comp, List.mem_cons]
+      by_cases e : p.1 = f
+      · have : ¬ (g p).1 ∈ tnames rest := by rw [hg, e]; exact htn.1
+        simp [e, this]
+      · simp [e]
+    · intro st' hst'
+      obtain ⟨f', x', hf', hmem', hstep'⟩ := hst st' (List.mem_cons_of_mem _ hst')
+      refine ⟨f', x', hf', ?_, hstep'⟩
+      have hne : f' ≠ f := by
+        intro e; subst e
+        exact htn.1 (List.mem_filterMap.2 ⟨st', hst', hf'⟩)
+      exact List.mem_map.2 ⟨(f', x'), hmem', by simp [hne]⟩
+
+theorem tnames_nodup (names : List String) (prog : List Stmt) :
+    (∀ st ∈ prog, ∃ f, st.tname = some f ∧ f ∈ names) →
+    (∀ n ∈ names, (prog.filter (fun st => st.tname == some n)).length ≤ 1) → (tnames prog).Nodup := by
+  induction prog with
+  | nil => intro _ _; simp [tnames]
+  | cons st rest ih =>
+    intro h1 h2
+    obtain ⟨f, hf, hfn⟩ := h1 st (List.mem_cons_self ..)
+    have htn' : tnames (st :: rest) = f :: tnames rest := by simp [tnames, hf]
+    rw [htn', List.nodup_cons]
+    constructor
+    · intro hmem
+      obtain ⟨st', hst', hf'⟩ := List.mem_filterMap.1 hmem
+      have h := h2 f hfn
+      have : st' ∈ rest.filter (fun st => st.tname == some f) := List.mem_filter.2 ⟨hst', by simp [hf']⟩
+      rw [List.filter_cons] at h
+      simp only [hf, beq_self_eq_true, if_true, List.length_cons] at h
+      have hlen : (rest.filter (fun st => st.tname == some f)).length = 0 := by omega
+      rw [List.length_eq_zero_iff] at hlen
+      rw [hlen] at this
+      cases this
+    · apply ih
+      · intro st' hst'; exact h1 st' (List.mem_cons_of_mem _ hst')
+      · intro n hn
+        have h := h2 n hn
+        rw [List.filter_cons] at h
+        split at h
+        · simp only [List.length_cons] at h; omega
+        · exact h
+
+
+/-! ## what the checker guarantees -/
+
+theorem checkType_unpack (types : List TypeDef) (td : TypeDef) (h : checkType types td = true) :
+    (∀ st ∈ td.prog, ∃ f ok fld, st.target = some (f, ok) ∧ td.fields.find? (·.name == f) = some fld ∧ ok fld.kind = true) ∧
+    (∀ fld ∈ td.fields, (td.prog.filter (fun st => st.tname == some fld.name)).length = 1) ∧
+    (td.fields.map (·.name)).Nodup := by
+  unfold checkType at h
+  simp only [Bool.and_eq_true, List.all_eq_true, decide_eq_true_eq, beq_iff_eq] at h
+  obtain ⟨⟨⟨⟨_, h2⟩, h3⟩, h4⟩, _⟩ := h
+  refine ⟨?_, ?_, h4⟩
+  · intro st hst
+    have := h2 st hst
+    split at this
+    · rename_i f ok htg
+      split at this
+      · rename_i fld hfld
+        exact ⟨f, ok, fld, htg, hfld, this⟩
+      · cases this
+    · cases this
+  · intro fld hfld
+    have := h3 fld hfld
+    rw [← this]
+    congr 1
+    apply List.filter_congr
+    intro st _
+    cases st <;> simp [Stmt.target, Stmt.tname]
+
+theorem checkAll_mem (types : List TypeDef) (h : checkAll types = true) (td : TypeDef) (htd : td ∈ types) :
+    checkType types td = true := by
+  unfold checkAll at h
+  simp only [Bool.and_eq_true, List.all_eq_true] at h
+  exact h.1 td htd
+
+theorem sound_core (types : List TypeDef) (fuel : Nat)
+    (IH : ∀ fuel', fuel = fuel' + 1 → ∀ td, td ∈ types → ∀ a b, conforms types fuel' td.fields a = true →
+      conforms types fuel' td.fields b = true →
+      evalStmts types fuel' td.fields td.prog a b = specStruct types fuel' td.fields a b)
+    (td : TypeDef) (hck : checkType types td = true) (r o : List (String × Val))
+    (hr : conforms types fuel td.fields r = true) (ho : conforms types fuel td.fields o = true) :
+    evalStmts types fuel td.fields td.prog r o = specStruct types fuel td.fields r o := by
+  obtain ⟨h1, h2, h3⟩ := checkType_unpack types td hck
+  obtain ⟨hrn, hrc⟩ := (conforms_iff ..).1 hr
+  obtain ⟨hon, hoc⟩ := (conforms_iff ..).1 ho
+  have hndr : (r.map (·.1)).Nodup := by rw [hrn]; exact h3
+  have hndo : (o.map (·.1)).Nodup := by rw [hon]; exact h3
+  have hnames : ∀ st ∈ td.prog, ∃ f, st.tname = some f ∧ f ∈ td.fields.map (·.name) := by
+    intro st hst
+    obtain ⟨f, ok, fld, htg, hfld, _⟩ := h1 st hst
+    refine ⟨f, target_tname st f ok htg, ?_⟩
+    have hm := List.mem_of_find?_eq_some hfld
+    have hn := List.find?_some hfld
+    simp only [beq_iff_eq] at hn
+    exact List.mem_map.2 ⟨fld, hm, hn⟩
+  have htn : (tnames td.prog).Nodup := by
+    apply tnames_nodup (td.fields.map (·.name)) td.prog hnames
+    intro n hn
+    obtain ⟨fld, hfld, rfl⟩ := List.mem_map.1 hn
+    rw [h2 fld hfld]
+    exact Nat.le_refl 1
+  rw [specStruct_eq]
+  rw [loop_eq types fuel td.fields o (fieldSpec types fuel td.fields o) (fieldSpec_fst types fuel td.fields o)
+    td.prog r hndr htn]
+  · apply List.map_congr_left
+    intro p hp
+    have hpn : p.1 ∈ td.fields.map (·.name) := by rw [← hrn]; exact List.mem_map.2 ⟨p, hp, rfl⟩
+    obtain ⟨fld, hfld, hfn⟩ := List.mem_map.1 hpn
+    have hlen := h2 fld hfld
+    have : p.1 ∈ tnames td.prog := by
+      cases hfl : td.prog.filter (fun st => st.tname == some fld.name) with
+      | nil => rw [hfl] at hlen; cases hlen
+      | cons st _ =>
+        have hst : st ∈ td.prog.filter (fun st => st.tname == some fld.name) := by rw [hfl]; exact List.mem_cons_self ..
+        rw [List.mem_filter] at hst
+        have := hst.2
+        simp only [beq_iff_eq] at this
+        exact List.mem_filterMap.2 ⟨st, hst.1, by rw [this, hfn]⟩
+    simp [this]
+  · intro st hst
+    obtain ⟨f, ok, fld, htg, hfld, hok⟩ := h1 st hst
+    have hfmem : f ∈ td.fields.map (·.name) := by
+      obtain ⟨f', hf', hm⟩ := hnames st hst
+      rw [target_tname st f ok htg] at hf'
+      cases hf'
+      exact hm
+    obtain ⟨x, hx⟩ := exists_of_mem_names r f (by rw [hrn]; exact hfmem)
+    obtain ⟨y, hy⟩ := exists_of_mem_names o f (by rw [hon]; exact hfmem)
+    obtain ⟨fld1, hfld1, hcx⟩ := hrc f x hx
+    obtain ⟨fld2, hfld2, hcy⟩ := hoc f y hy
+    rw [hfld] at hfld1 hfld2
+    cases hfld1
+    cases hfld2
+    refine ⟨f, x, target_tname st f ok htg, hx, ?_⟩
+    intro r' hnd' hmem'
+    exact step_eq types fuel td.fields o IH st f ok htg fld hfld hok x y hcx hcy
+      (lookup_eq_of_mem o hndo f y hy) r' hnd' hmem'
+
+theorem sound_all (types : List TypeDef) (hall : checkAll types = true) : ∀ (fuel : Nat) (td : TypeDef), td ∈ types →
+    ∀ (r o : List (String × Val)), conforms types fuel td.fields r = true → conforms types fuel td.fields o = true →
+    evalStmts types fuel td.fields td.prog r o = specStruct types fuel td.fields r o := by
+  intro fuel
+  induction fuel with
+  | zero =>
+    intro td htd r o hr ho
+    exact sound_core types 0 (fun fuel' h => by omega) td (checkAll_mem types hall td htd) r o hr ho
+  | succ n ih =>
+    intro td htd r o hr ho
+    refine sound_core types (n + 1) ?_ td (checkAll_mem types hall td htd) r o hr ho
+    intro fuel' h
+    have : n = fuel' := by omega
+    subst this
+    exact ih
+
 end CM.Merge
